@@ -244,7 +244,7 @@ theorem sim_opaquePath {s : Ser} {u : Url} (h : SchInv s u) (ho : u.hasOpaquePat
     base (`append_parts`), it is fixed by `commit_path` -/
 def PathInv (s : Ser) (u : Url) : Prop :=
   u.hasOpaquePath = false ∧ RecWF u ∧ NoSlash u.path ∧ u.query = none ∧ u.fragment = none ∧
-  ((u.path = [] ∧ (SchInv s u ∨ (SerInv s u ∧ s.lastPt ≤ PORT))) ∨
+  ((u.path = [] ∧ (SchInv s u ∨ (SerInv s u ∧ s.lastPt < PATH))) ∨
    (s.lastPt = PATH ∧ ∃ pfx, (pfx = [] ∨ pfx = [0x2F, 0x2E]) ∧
       s.rep = mkRep (layout u) ((segsOf u).take 7 ++ [pfx] ++ [ptext u.path])))
 
@@ -316,15 +316,15 @@ theorem pathInv_push {s : Ser} {u : Url} (h : PathInv s u) (seg : List Nat) (hs 
       simp only at hr hlen hl
       subst hr
       have hlo := hA.lo
-      rw [push_later _ A lastPt seg hlen (by omega) (by simp only [PORT, PATH] at *; omega)]
+      rw [push_later _ A lastPt seg hlen (by omega) hl]
       refine ⟨rfl, [], Or.inl rfl, ?_⟩
       simp only
       rw [hcong, segs_take7 u (u.path ++ [seg]), hp]
       have htk : (segsOf u).take 8 = A ++ List.replicate (8 - A.length) [] := by
         conv => lhs; rw [hA.pad]
-        rw [List.take_append, List.take_replicate, List.take_of_length_le (by simp only [PORT] at hl; omega)]
+        rw [List.take_append, List.take_replicate, List.take_of_length_le (by simp only [PATH] at hl; omega)]
         congr 2
-        simp only [PORT] at hl; omega
+        simp only [PATH] at hl; omega
       have h8 : (segsOf u).take 8 = (segsOf u).take 7 ++ [[]] := by
         have hpt : pathText u = [] := by rw [pathText_ptext ho, hp]; rfl
         simp [segsOf, prefixSeg, needsPathPrefix_of_pathText_nil hpt]
@@ -548,7 +548,7 @@ theorem HostPre.tail {s : Ser} {u : Url} (h : HostPre s u) :
 
 theorem HostPre.pathInv {s : Ser} {u : Url} (h : HostPre s u) : PathInv s u := by
   obtain ⟨_, hp, hq, hf⟩ := h.tail
-  refine ⟨h.2.2.1, h.1.1, ?_, hq, hf, Or.inl ⟨hp, Or.inr ⟨h.1, h.2.1⟩⟩⟩
+  refine ⟨h.2.2.1, h.1.1, ?_, hq, hf, Or.inl ⟨hp, Or.inr ⟨h.1, by have := h.2.1; simp only [PORT, PATH] at *; omega⟩⟩⟩
   rw [hp]; intro x hx; simp at hx
 
 theorem sim_pathStart {s : Ser} {u : Url} (h : HostPre s u) (p : List Nat) :
